@@ -64,6 +64,40 @@ namespace
   std::string tmpdir = "/tmp";
   bool dump_saves = false;
   bool only_finite = false;      // C13 mode: replay any specification's behaviours, judge only totality and finiteness
+  // Environment steps.  The specification's behaviours never mention what else happens in the process: any other
+  // world may be alive and may be asked anything between two steps, and no expectation may change (Wb.tla,
+  // "Interfere").  With --interfere K the harness keeps up to K decoy worlds, built from documents this process has
+  // seen, and asks one of them the same question (same point, depth and property list) right before every query.
+  size_t interfere = 0;
+  std::vector<std::unique_ptr<WorldBuilder::World>> decoys;
+  size_t decoy_next = 0, decoy_seen = 0;
+  long decoy_queries = 0;
+
+  void decoy_consider(const std::string &path)        // the K most recently built documents stay alive as decoys
+  {
+    if (interfere == 0) return;
+    try
+      {
+        std::unique_ptr<WorldBuilder::World> w(new WorldBuilder::World(path, false, "", 1ul));
+        if (decoys.size() < interfere) decoys.push_back(std::move(w));
+        else decoys[decoy_seen % interfere] = std::move(w);
+        ++decoy_seen;
+      }
+    catch (...) {}
+  }
+
+  void decoy_ask(const int dim, const double *c, const double depth, const std::vector<std::array<unsigned int,3>> &props)
+  {
+    if (decoys.empty()) return;
+    WorldBuilder::World &w = *decoys[decoy_next++ % decoys.size()];
+    ++decoy_queries;
+    try
+      {
+        if (dim == 2) (void) w.properties(std::array<double,2> {{c[0], c[1]}}, depth, props);
+        else (void) w.properties(std::array<double,3> {{c[0], c[1], c[2]}}, depth, props);
+      }
+    catch (...) {}
+  }
   std::string cur_id;
   std::string cur_labels = "[]";
   long cur_index = -1;
@@ -208,6 +242,7 @@ namespace
           else
             throw HarnessError("unknown api " + H.api);
           H.alive = true;
+          if (!global && H.api == "native" && !has_outdir) decoy_consider(path);
           if (expect == "throw" && !only_finite)
             mism("create", "construction succeeded but the specification says the document must be rejected");
         }
@@ -251,6 +286,7 @@ namespace
       const std::string via = s.HasMember("via") ? s["via"].GetString() : "props";
       const auto props = get_props(s["props"]);
       ++stats.queries;
+      if (p.size() >= static_cast<size_t>(dim)) decoy_ask(dim, p.data(), depth, props);
       try
         {
           if (H.api == "native")
@@ -638,6 +674,7 @@ namespace
             }
           std::vector<double> out;
           ++stats.queries;
+          decoy_ask(dim, c.data(), dim == 3 ? c[3] : c[2], props);
           try
             {
               out = dim == 3 ? w.properties(std::array<double,3> {{c[0], c[1], c[2]}}, c[3], props)
@@ -646,10 +683,65 @@ namespace
           catch (const std::exception &e)
             {
               ++stats.threw_query;
-              if (!only_finite) mism("query", std::string("query threw: ") + e.what());
+              const bool may_throw = s.HasMember("may_throw") && s["may_throw"].GetBool();
+              if (!only_finite && !may_throw) mism("query", std::string("query threw: ") + e.what());
+              if (may_throw && !only_finite && s.HasMember("h2"))     // a refusal is part of the answer: the twin must refuse as well
+                {
+                  Handle &H2 = handle(s["h2"].GetInt());
+                  if (H2.alive && H2.world() && !s.HasMember("pos2"))
+                    {
+                      ++stats.checks; ++stats.by_check["twin-refusal"];
+                      try
+                        {
+                          if (dim == 3) (void) H2.world()->properties(std::array<double,3> {{c[0], c[1], c[2]}}, c[3], props);
+                          else (void) H2.world()->properties(std::array<double,2> {{c[0], c[1]}}, c[2], props);
+                          mism("twin", "row [" + fmt(c[0]) + "," + fmt(c[1]) + "," + fmt(c[2]) + "," + fmt(c[3]) + "]: the first world refuses the query, the twin answers it");
+                        }
+                      catch (const std::exception &) {}
+                    }
+                }
               continue;
             }
           (void) off;
+          // "blocks": every property asked alone, and the list asked in reverse order, must give the blocks of the batched reply bit for bit
+          if (!only_finite && s.HasMember("blocks") && s["blocks"].GetBool())
+            {
+              try
+                {
+                  size_t o = 0;
+                  std::vector<size_t> offs;
+                  for (size_t i = 0; i < props.size(); ++i)
+                    {
+                      const std::vector<std::array<unsigned int,3>> one(1, props[i]);
+                      const std::vector<double> single = dim == 3 ? w.properties(std::array<double,3> {{c[0], c[1], c[2]}}, c[3], one)
+                                                         : w.properties(std::array<double,2> {{c[0], c[1]}}, c[2], one);
+                      ++stats.queries; ++stats.checks; ++stats.by_check["block-vs-single"];
+                      offs.push_back(o);
+                      bool same = o + single.size() <= out.size();
+                      for (size_t k = 0; same && k < single.size(); ++k) same = bits(single[k]) == bits(out[o + k]);
+                      if (!same)
+                        mism("block-vs-single", "row [" + fmt(c[0]) + "," + fmt(c[1]) + "," + fmt(c[2]) + "," + fmt(c[3]) + "]: block " + std::to_string(i) + " of the batched reply differs from the property asked alone",
+                             static_cast<long>(o), o < out.size() ? fmt(out[o]) : "", single.empty() ? "" : fmt(single[0]));
+                      o += single.size();
+                    }
+                  if (o != out.size()) mism("block-vs-single", "the batched reply is not the concatenation of its blocks", -1, std::to_string(out.size()), std::to_string(o));
+                  std::vector<std::array<unsigned int,3>> rev(props.rbegin(), props.rend());
+                  const std::vector<double> r = dim == 3 ? w.properties(std::array<double,3> {{c[0], c[1], c[2]}}, c[3], rev)
+                                                : w.properties(std::array<double,2> {{c[0], c[1]}}, c[2], rev);
+                  ++stats.queries; ++stats.checks; ++stats.by_check["block-vs-reversed"];
+                  size_t ro = 0;
+                  bool same = r.size() == out.size();
+                  for (size_t j = 0; same && j < rev.size(); ++j)
+                    {
+                      const size_t i = props.size() - 1 - j;
+                      const size_t n = (i + 1 < props.size() ? offs[i + 1] : out.size()) - offs[i];
+                      for (size_t k = 0; same && k < n; ++k) same = bits(r[ro + k]) == bits(out[offs[i] + k]);
+                      ro += n;
+                    }
+                  if (!same) mism("block-vs-reversed", "row [" + fmt(c[0]) + "," + fmt(c[1]) + "," + fmt(c[2]) + "," + fmt(c[3]) + "]: the reply to the reversed list is not the reversed sequence of blocks");
+                }
+              catch (const std::exception &e) { mism("query", std::string("batched query answered, stand-alone query threw: ") + e.what()); }
+            }
           if (only_finite)
             {
               ++stats.checks; ++stats.by_check["finite"];
@@ -678,8 +770,23 @@ namespace
                     }
                   try
                     {
-                      out2 = dim == 3 ? H2.world()->properties(std::array<double,3> {{q[0], q[1], q[2]}}, c[3], props)
-                             : H2.world()->properties(std::array<double,2> {{q[0], q[1]}}, c[2], props);
+                      if (H2.api == "c" && H2.cptr)        // the twin is a C-interface world: ask it through the C functions
+                        {
+                          std::vector<unsigned int> flat;
+                          for (auto &pq : props) { flat.push_back(pq[0]); flat.push_back(pq[1]); flat.push_back(pq[2]); }
+                          flat.resize(flat.size() + 3);
+                          const unsigned int (*pp)[3] = reinterpret_cast<const unsigned int (*)[3]>(flat.data());
+                          const unsigned int n = properties_output_size(H2.cptr, pp, static_cast<unsigned int>(props.size()));
+                          out2.assign(n + 4, -7.25e300);
+                          if (dim == 2) properties_2d(H2.cptr, q[0], q[1], c[2], pp, static_cast<unsigned int>(props.size()), out2.data());
+                          else properties_3d(H2.cptr, q[0], q[1], q[2], c[3], pp, static_cast<unsigned int>(props.size()), out2.data());
+                          for (unsigned int i = n; i < n + 4; ++i)
+                            if (out2[i] != -7.25e300) mism("c-overrun", "C API wrote past the announced output size", i);
+                          out2.resize(n);
+                        }
+                      else
+                        out2 = dim == 3 ? H2.world()->properties(std::array<double,3> {{q[0], q[1], q[2]}}, c[3], props)
+                               : H2.world()->properties(std::array<double,2> {{q[0], q[1]}}, c[2], props);
                     }
                   catch (const std::exception &e) { mism("query", std::string("twin query threw: ") + e.what()); }
                   bool same = out2.size() == out.size();
@@ -995,6 +1102,7 @@ int main(int argc, char **argv)
       else if (a == "--timeout") timeout_s = static_cast<unsigned int>(std::atoi(argv[i+1]));
       else if (a == "--dump") dump_saves = std::atoi(argv[i+1]) != 0;
       else if (a == "--only-finite") only_finite = std::atoi(argv[i+1]) != 0;
+      else if (a == "--interfere") interfere = static_cast<size_t>(std::atoi(argv[i+1]));
     }
   {
     // private working directory: relative output directories of create_world land here
@@ -1041,7 +1149,7 @@ int main(int argc, char **argv)
             << ",\"queries\":" << stats.queries << ",\"values\":" << stats.values << ",\"checks\":" << stats.checks
             << ",\"mismatches\":" << stats.mismatches << ",\"skipped_steps\":" << stats.skipped_steps
             << ",\"threw_create\":" << stats.threw_create << ",\"threw_query\":" << stats.threw_query
-            << ",\"kernel_calls\":" << stats.kernel_calls << ",\"by_check\":{";
+            << ",\"kernel_calls\":" << stats.kernel_calls << ",\"environment_queries\":" << decoy_queries << ",\"by_check\":{";
   bool first = true;
   for (auto &kv : stats.by_check) { std::cout << (first ? "" : ",") << jstr(kv.first) << ":" << kv.second; first = false; }
   std::cout << "}}" << std::endl;
